@@ -440,14 +440,21 @@ def check_case(L, m, T, P, st, integ, h, flags, info, witness):
                 return np.array(d2["qacc"]), (np.array(d2["act_dot"]) if na else np.zeros(0))
 
             q_ref, v_ref, wbar, stages = ri.rk4(q0, v0, w0, t0, h, deriv, oplus, first=(qacc, wdot))
-            a_ref = (v_ref - v0) / h
-            # position update: combination of the stage velocities
-            err = np.abs(q1 - q_ref).max()
-            P.note_max("abserr_rk4_qpos", err)
-            if err > 1e-9 * (1 + h * np.abs(v0).max()):
-                viol("rk4-position-differs-from-classical-tableau", err=float(err), h=h)
+            vmax = max(np.abs(sv).max() for (_, sv, _) in stages) if nv else 0.0
+            if not np.isfinite(vmax) or vmax > 100 * (1 + np.abs(v0).max()):
+                # the step is far outside the stability region (stage velocities explode): rounding differences between the
+                # reference and the engine's manifold update are amplified without bound, nothing can be decided
+                P.count("skipped_rk4_step_unstable")
+                a_ref = None
+            else:
+                a_ref = (v_ref - v0) / h
+                # position update: combination of the stage velocities
+                err = np.abs(q1 - q_ref).max()
+                P.note_max("abserr_rk4_qpos", err)
+                if err > 1e-9 * (1 + h * vmax):
+                    viol("rk4-position-differs-from-classical-tableau", err=float(err), h=h)
+                nontrivial = True
             vel_for_pos = None
-            nontrivial = True
 
         if a_ref is not None:
             dv_ref = h * a_ref
